@@ -29,7 +29,15 @@ type peerScript struct {
 	EOF     bool   `json:"eof,omitempty"`  // the peer closes its side after the delivered chunks
 	Tail    int    `json:"tail,omitempty"` // bytes of frame data following the response in its last chunk
 	Gate    int    `json:"gate,omitempty"` // the peer starts accepting writes at this time after connect; <0 = never
+	SlowDL  bool   `json:"slow_set_deadline,omitempty"` // every Set*Deadline call takes slowDL of virtual time before it takes effect
 }
+
+// slowDL is the latency of a slow Set*Deadline call. It is far below the 1 ms
+// grid of the scenario's instants; the oracle allows dlSlack for their sum.
+const (
+	slowDL  = time.Microsecond
+	dlSlack = 100 * time.Microsecond
+)
 
 const wsGUID = "258EAFA5-E914-47DA-95CA-C5AB0DC85B11"
 
@@ -395,6 +403,11 @@ func dlArg(t time.Time) string {
 }
 
 func (c *fakeConn) setDL(kind string, t time.Time, r, w bool) error {
+	if c.script.SlowDL {
+		// The call is logged when it takes effect: a caller that does not wait
+		// for it (and only such a caller) is seen touching the conn late.
+		time.Sleep(slowDL)
+	}
 	c.mu.Lock()
 	defer c.mu.Unlock()
 	i := c.appendLocked(kind, -1, dlArg(t))
